@@ -58,7 +58,7 @@ def handleDbgwrap (rest : String) : String :=
     match target.toNat?, Sexp.parseAll (" ".intercalate sexpParts) with
     | some t, some [sa, sb] =>
       if parseErrs sa != 0 || parseErrs sb != 0 then "OK (dbgwrap parse-error)" else
-      match parseProg sa, parseProg sb with
+      match parseProg (unhint sa).1, parseProg (unhint sb).1 with
       | some pa, some pb =>
         match pa.unsupported, pb.unsupported with
         | none, none =>
